@@ -115,7 +115,10 @@ class Check(PropertyCheck):
         res = backend.run(cases)
         for c, r in zip(cases, res):
             self.evaluations += 1
-            if r["impl"] != r["model"]:
+            cmp = backend.compare_outputs(r["impl"], r["model"])
+            if cmp == "float":
+                self.count("inexact_float")
+            if cmp == "different":
                 dis.append(Disagreement("back end bytes", {"input": c[0], "input_hex": hx(c[0]), "settings": c[1].describe(),
                                                           "entry": str(c[2])}, r["model"][:400], r["impl"][:400]))
         self.count("backend_cases", len(cases))
